@@ -208,6 +208,7 @@ func init() {
 			"NOT decided: which corruptions the CBOR decoder reports as errors; timing.",
 		Assumptions: []string{"every decode call may fail at any time (the property's fault model)"},
 		Rules: []func(*Ctx){
+			func(c *Ctx) { c.ruleStrictDec("R-STRICTDEC"); c.R.Floor("R-STRICTDEC", 5) },
 			func(c *Ctx) { c.ruleDeliver("R-DELIVER") },
 			func(c *Ctx) { c.ruleMustPass("R-MUSTPASS") },
 			func(c *Ctx) { c.ruleAtomic("R-ATOMIC"); c.R.Floor("R-ATOMIC", 4) },
